@@ -636,7 +636,7 @@ impl Property for C15 {
     }
 
     fn rule() -> &'static str {
-        "one evaluation = one seeded scenario: 1-6 regular files whose atime and mtime are set independently at nanosecond resolution (utimensat), a reference file with three different timestamps, an injected clock `now` decades from the wall clock placed at timestamp + k*period + eps (period 60 s or 86400 s, k in 0..20000, eps in {-1 s, -1 ns, 0, +1 ns, +1 s, random sub-second}); for ctime, which cannot be set, the clock (or the other side of the comparison) is placed relative to the real ctime read back with lstat; one of -{a,c,m}time/-{a,c,m}min N|+N|-N, -newer, -anewer, -cnewer, -newerXY (nine XY) per run; oracle: exact integer-nanosecond arithmetic on the lstat records; a fifth of the runs carry a second time test and a fifth a follow flag; ages reach back before 1970; every run also checks that StandardDependencies::now() is fixed at construction; distinct = distinct abstract trace x boundary probes; non-trivial = a boundary probe hit (age exactly k periods / 1 ns / within 1 s of it, equal or 1-ns-apart timestamps, X != Y)"
+        "one evaluation = one seeded scenario: 1-6 regular files whose atime and mtime are set independently at nanosecond resolution (utimensat), a reference file with three different timestamps, an injected clock `now` decades from the wall clock placed at timestamp + k*period + eps (period 60 s or 86400 s, k in 0..20000, eps in {-1 s, -1 ns, 0, +1 ns, +1 s, random sub-second}); for ctime, which cannot be set, the clock (or the other side of the comparison) is placed relative to the real ctime read back with lstat; one of -{a,c,m}time/-{a,c,m}min N|+N|-N, -newer, -anewer, -cnewer, -newerXY (nine XY) per run; oracle: exact integer-nanosecond arithmetic on the lstat records; a fifth of the runs carry a second time test and a fifth a follow flag; ages reach back before 1970, so do reference timestamps of the -newer family (down to fractions of a second before the epoch); the process environment is a dimension too (variables nobody should listen to such as POSIXLY_CORRECT, TZ with daylight saving, LC_ALL, in a sixth of the runs; descriptor 1 a terminal in a tenth); every run also checks that StandardDependencies::now() is fixed at construction; distinct = distinct abstract trace x boundary probes; non-trivial = a boundary probe hit (age exactly k periods / 1 ns / within 1 s of it, equal or 1-ns-apart timestamps, X != Y)"
     }
 
     fn components() -> Value {
